@@ -1,9 +1,12 @@
 (* C15 - Written alignment files are self-consistent and correctly labelled.
-   Statements only; proofs in FormatsProofs.v.  Proved: FASTA wrapping and the line structure of
-   the FASTA writer; the Clustal/MSF block structure and the MSF header fields are decided on every
-   run by the byte-exact correspondence of the writer model with msa_io.c and by independent
-   parsers applied to the implementation's files (DESIGN C15). *)
-From KV Require Import Base Params Sort Detect Weave Cmp Formats FormatsProofs.
+   Statements only; proofs in FormatsProofs.v and FormatsProofs2.v.  Proved: FASTA wrapping and the line
+   structure of the FASTA writer; for Clustal and MSF: every block lists every sequence in order under its
+   name, the blocks are 60 columns wide except the last (1..60), and the chunks of a row concatenate to the row;
+   the MSF header declares the alignment length, the per-row checksum over the whole row and the molecule type,
+   and its decimal fields mean the numbers they print.  That the writer model is msa_io.c is the byte-exact
+   correspondence checked on every run, together with independent parsers applied to the implementation's
+   files (DESIGN C15). *)
+From KV Require Import Base Params Sort Detect Weave Cmp Formats FormatsProofs FormatsProofs2.
 From Coq Require Import String.
 From Coq Require Import List.
 Import Coq.Init.Datatypes.
@@ -26,6 +29,55 @@ Print Assumptions C15_fasta_pieces_are_the_row.
 Theorem C15_fasta_file_is_lines : forall rows, write_fasta rows = unlines (fasta_lines rows).
 Proof. exact write_fasta_unlines. Qed.
 Print Assumptions C15_fasta_file_is_lines.
+
+(* Clustal and MSF body: one line per sequence per block, in input order, name first *)
+Theorem C15_body_lists_every_sequence_in_every_block : forall alnlen rows,
+  blocks alnlen rows =
+  flat_map (fun b => map (fun nr => block_line (max_name_len rows) (fst nr) (chunk_of alnlen b (snd nr))) rows ++ [[nl]])
+           (seq 0 ((alnlen + 59) / 60)).
+Proof. exact body_structure. Qed.
+Print Assumptions C15_body_lists_every_sequence_in_every_block.
+
+(* a block line is the name, at least five blanks, and the block's columns of that row *)
+Theorem C15_block_line_shape : forall alnlen mx b nr, row_ok alnlen mx nr ->
+  line_of mx alnlen b nr = fst nr ++ 32 :: (repeat space (mx + 4 - length (fst nr)) ++ chunk_of alnlen b (snd nr)).
+Proof. exact line_shape. Qed.
+Print Assumptions C15_block_line_shape.
+
+(* blocks are at most 60 columns wide - exactly 60 except the last - and never empty *)
+Theorem C15_blocks_at_most_60_columns : forall alnlen row b, length row = alnlen -> (b < (alnlen + 59) / 60)%nat ->
+  (1 <= length (chunk_of alnlen b row) <= 60)%nat /\
+  (length (chunk_of alnlen b row) = 60%nat \/ S b = ((alnlen + 59) / 60)%nat).
+Proof. exact block_widths. Qed.
+Print Assumptions C15_blocks_at_most_60_columns.
+
+(* ... and together they are the row: every column is written exactly once, in order *)
+Theorem C15_blocks_cover_the_row : forall alnlen row, length row = alnlen ->
+  List.concat (map (fun b => chunk_of alnlen b row) (seq 0 ((alnlen + 59) / 60))) = row.
+Proof. exact blocks_cover_row. Qed.
+Print Assumptions C15_blocks_cover_the_row.
+
+(* the MSF file: type line by molecule kind, "MSF: <alnlen>", "Check: <sum of row checksums mod 10000>", one
+   Name line per row with "Len: <alnlen>" and "Check: <GCG checksum of the whole row>", "//", then the body *)
+Theorem C15_msf_header_declares : forall basename date protein alnlen rows,
+  exists body, write_msf basename date protein alnlen rows =
+    unlines ([bytes_of_string (if protein then "!!AA_MULTIPLE_ALIGNMENT 1.0"%string else "!!NA_MULTIPLE_ALIGNMENT 1.0"%string); [];
+              [space] ++ basename ++ bytes_of_string "  MSF: "%string ++ decimal (Z.of_nat alnlen) ++ bytes_of_string "  Type: "%string ++
+                [if protein then 80 else 78] ++ bytes_of_string "  "%string ++ date ++ bytes_of_string "  Check: "%string ++
+                decimal (gcg_mult alnlen rows) ++ bytes_of_string "  .."%string; []] ++
+             map (fun nr => bytes_of_string " Name: "%string ++ firstn (max_name_len rows) (fst nr) ++
+                            repeat space (max_name_len rows - length (firstn (max_name_len rows) (fst nr))) ++
+                            bytes_of_string "  Len:  "%string ++ pad_left 5 (decimal (Z.of_nat alnlen)) ++
+                            bytes_of_string "  Check: "%string ++ pad_left 4 (decimal (gcg_checksum (firstn alnlen (snd nr)))) ++
+                            bytes_of_string "  Weight: 1.00"%string) rows ++
+             [[]; bytes_of_string "//"%string; []] ++ body) /\ body = blocks alnlen rows.
+Proof. exact msf_header_declares. Qed.
+Print Assumptions C15_msf_header_declares.
+
+(* a decimal field denotes the number printed *)
+Theorem C15_decimal_fields_mean_their_numbers : forall n, 0 <= n < 10 ^ 40 -> undecimal (decimal n) = n.
+Proof. exact decimal_value. Qed.
+Print Assumptions C15_decimal_fields_mean_their_numbers.
 
 (* the MSF header of a concrete alignment (instance, by evaluation): declared length = alignment
    length, per-row checksum over the whole row, nucleic-acid label *)
